@@ -12,7 +12,6 @@ write.  The refinement is therefore proved under `NoRelink` (`C01.refines_partia
 statement is kept as `C01.refines_full` and refuted from a concrete history
 (`C01.refines_full_false`).  Everything else below holds for all histories.
 -/
-import Uniflow.Generated.Locks
 import Uniflow.Proofs.WriterSim
 import Uniflow.Model.Pump
 
@@ -695,16 +694,3 @@ theorem C01.pump_no_loss_partial_nonvacuous :
 theorem C01.join_nonvacuous :
     join [.val 1, .err 4, .none, .err 0] = .err [4, 0] ∧ join [.none, .val 1, .none, .val 2] = .vals [1, 2] ∧
     join [.none, .val 1] = .val 1 ∧ join [.none, .none] = .none := by decide
-
-/-! ## Step granularity tied to the source
-
-The writer/reader machine takes every public method of `packet.Writer` and `packet.Reader` as ONE
-critical section. `Generated/Locks.lean` is regenerated from writer.go / reader.go on every run. -/
-open Uniflow.Generated.Locks in
-theorem C01.atomic_sections :
-    (acquireSites.filter (fun a => a.1 == "packet.Writer" || a.1 == "packet.Reader")).all (fun a => a.2.2.2 == 1) = true ∧
-    acquireSites.contains ("packet.Writer", "Write", "mu", 1) = true ∧
-    acquireSites.contains ("packet.Writer", "receive", "mu", 1) = true ∧
-    acquireSites.contains ("packet.Reader", "Receive", "mu", 1) = true ∧
-    acquireSites.contains ("packet.Reader", "Close", "mu", 1) = true := by
-  decide
